@@ -121,9 +121,11 @@ def run(prog: Program, rep, thorough: bool) -> None:
     rep.saw(czc)
     x, y, L = A.sym('x'), A.sym('y'), A.sym('L')
     ref = x * A.fn('tan', L)
-    for seen in (0, 1, 2, 3):
+    # the row flags already raised for this sample by an earlier check (a range / time row, a Mach crossing) must
+    # survive: every case is evaluated with no flag, RANGE and MACH|RANGE already set
+    for seen, init in [(s_, i_) for s_ in (0, 1, 2, 3) for i_ in (0, flags['RANGE'], flags['MACH'] | flags['RANGE'])]:
         st = State()
-        flt = _mk_filter(ev, st, prog, seen_zero=Scalar(seen))
+        flt = _mk_filter(ev, st, prog, seen_zero=Scalar(seen), current_flag=Scalar(init))
         rv = C.mk_vec(ev, st, prog, 'x', 'y', 'z')
         try:
             tree, st = ev.run_func(czc, {czc.positional[0]: flt, czc.positional[1]: rv}, st)
@@ -172,7 +174,13 @@ def run(prog: Program, rep, thorough: bool) -> None:
                     elif above is None:
                         problems.append('zero-down not tested against the sight line')
                         continue
-            if (cur, sz) != (want_cur, want_sz):
+            if (cur, sz) == (want_cur | init, want_sz):
+                continue
+            if init and (cur, sz) == (want_cur, want_sz):
+                problems.append(f'the row flags already raised for the sample ({init}) are overwritten instead of or-ed: a '
+                                f'range / time / Mach row due at the same sample is lost')
+                continue
+            if (cur, sz) != (want_cur | init, want_sz):
                 def nm(v):
                     return '|'.join(k for k, b in (('ZERO_UP', UP), ('ZERO_DOWN', DOWN)) if v & b) or 'NONE'
                 problems.append(f'{"beyond" if beyond else "at/before"} the muzzle, {"above" if above else "below"} the '
@@ -181,21 +189,26 @@ def run(prog: Program, rep, thorough: bool) -> None:
         if problems:
             rep.fail('C15.R1', tc.path, czc.node.lineno, czc.qualname, f'latches={seen}',
                      f'check_zero_crossing with {label}: ' + '; '.join(sorted(set(problems))[:3]))
-        else:
+        elif init == 0:
             rep.ok('C15.R1', czc.where, f'{label}: flags and latches move together, once only')
+        else:
+            rep.ok('C15.R1', czc.where, f'{label}, row flags {init} already raised: kept')
 
     # ---- R2 ------------------------------------------------------------------------------------------
     cmc = prog.func(C.M_TC, '_TrajectoryDataFilter.check_mach_crossing')
     rep.saw(cmc)
-    st = State()
-    flt = _mk_filter(ev, st, prog)
-    try:
-        tree, st = ev.run_func(cmc, {cmc.positional[0]: flt, cmc.positional[1]: S('v'), cmc.positional[2]: S('a')}, st)
-    except Undecided as exc:
-        raise AnalysisError(f'check_mach_crossing: {exc}') from exc
     v, a, pvm = A.sym('v'), A.sym('a'), A.sym('pvm')
     problems = []
-    for path, leaf in leaves(tree):
+    trees = []
+    for init in (0, flags['RANGE'], flags['RANGE'] | flags['ZERO_UP']):
+        st = State()
+        flt = _mk_filter(ev, st, prog, current_flag=Scalar(init))
+        try:
+            tree, st = ev.run_func(cmc, {cmc.positional[0]: flt, cmc.positional[1]: S('v'), cmc.positional[2]: S('a')}, st)
+        except Undecided as exc:
+            raise AnalysisError(f'check_mach_crossing: {exc}') from exc
+        trees.extend((init, flt, p_, l_) for p_, l_ in leaves(tree))
+    for init, flt, path, leaf in trees:
         h = leaf.state.heap[flt.oid]
         hist = h.get('previous_v_mach')
         if not (isinstance(hist, Scalar) and hist.rf.equals(v / a)):
@@ -211,8 +224,11 @@ def run(prog: Program, rep, thorough: bool) -> None:
                 now_sub = pol
             else:
                 problems.append(f'depends on {t!r}')
-        want = flags['MACH'] if (was_super and now_sub) else 0
-        if not (isinstance(cur, Scalar) and cur.rf.is_const() and int(cur.rf.const_value()) == want):
+        want = (flags['MACH'] if (was_super and now_sub) else 0) | init
+        if init and isinstance(cur, Scalar) and cur.rf.is_const() and int(cur.rf.const_value()) == want & ~init and want & ~init:
+            problems.append(f'the row flags already raised for the sample ({init}) are overwritten instead of or-ed: a range / '
+                            f'time row due at the sample of the sonic crossing is lost')
+        elif not (isinstance(cur, Scalar) and cur.rf.is_const() and int(cur.rf.const_value()) == want):
             problems.append(f'with previous Mach {"> 1" if was_super else "<= 1 / untested"} and current '
                             f'{"<= 1" if now_sub else "> 1 / untested"} the row flag is {cur!r}, expected {want}')
     if problems:
@@ -373,6 +389,8 @@ VARIANTS = [
     Variant('zeros-filter-up-only', 'break', [(TDF, 'if row.flag & TrajFlag.ZERO]', 'if row.flag & TrajFlag.ZERO_UP]')], 'C15.R3'),
     Variant('mach-crossing-skipped-when-range-row', 'break', [(TCF, '        self.check_zero_crossing(position)\n        self.check_mach_crossing(velocity.magnitude(), mach)\n', '        self.check_zero_crossing(position)\n        if data is None:\n            self.check_mach_crossing(velocity.magnitude(), mach)\n')], 'C15.R2', 'a sonic crossing that coincides with a range row is lost'),
     Variant('all-misses-mach', 'break', [(TDF, 'ALL: Final[int] = RANGE | ZERO_UP | ZERO_DOWN | MACH | APEX', 'ALL: Final[int] = RANGE | ZERO_UP | ZERO_DOWN | APEX'), (TDF, "    31: 'ALL',", "    27: 'ALL',")], 'C15.R3'),
+    Variant('mach-flag-assigned-not-ored', 'break', [(TCF, '            self.current_flag |= TrajFlag.MACH\n', '            self.current_flag = TrajFlag.MACH\n')], 'C15.R2', 'seeded change C03/5: the time row due at the sonic crossing is lost'),
+    Variant('zero-up-flag-assigned-not-ored', 'break', [(TCF, '                    self.current_flag |= TrajFlag.ZERO_UP\n', '                    self.current_flag = TrajFlag.ZERO_UP\n')], 'C15.R1'),
     Variant('twin-flags-one-statement', 'twin', [(TCF, '                    self.current_flag |= TrajFlag.ZERO_UP\n                    self.seen_zero |= TrajFlag.ZERO_UP\n', '                    self.seen_zero |= TrajFlag.ZERO_UP\n                    self.current_flag = self.current_flag | TrajFlag.ZERO_UP\n')], None),
     Variant('twin-mach-check-rewritten', 'twin', [(TCF, 'if self.previous_v_mach > 1 >= current_v_mach:', 'if current_v_mach <= 1 and self.previous_v_mach > 1:')], None),
 ]
